@@ -24,6 +24,9 @@ pub mod shim {
         fn pre(&self);
         /// Called after every atomic operation.
         fn post(&self, kind: &'static str, addr: usize, arg: u64, old: u64);
+        /// Called before every primitive access of the byte-copy helper (`len` bytes written at `dst`).
+        /// Ignored unless the hook overrides it.
+        fn copy(&self, _dst: usize, _len: usize) {}
     }
 
     static HOOK: RwLock<Option<Arc<dyn AtomicHook>>> = RwLock::new(None);
@@ -43,6 +46,14 @@ pub mod shim {
         if let Some(h) = hook() {
             h.pre();
             h.post(name, 0, arg, 0);
+        }
+    }
+
+    /// Reports a primitive access of the byte-copy helper to the hook (a scheduling point for the
+    /// harness when it explores how a tracked write interleaves with bitmap harvesting).
+    pub fn copy_point(dst: usize, len: usize) {
+        if let Some(h) = hook() {
+            h.copy(dst, len);
         }
     }
 
@@ -161,6 +172,7 @@ pub mod access {
     }
 
     pub(crate) fn single(width: usize, src: usize, dst: usize) {
+        super::shim::copy_point(dst, width);
         LOG.with(|l| {
             if let Some(v) = l.borrow_mut().as_mut() {
                 v.push(Access { width, src, dst, bulk: 0 });
@@ -169,6 +181,7 @@ pub mod access {
     }
 
     pub(crate) fn bulk(total: usize, src: usize, dst: usize) {
+        super::shim::copy_point(dst, total);
         LOG.with(|l| {
             if let Some(v) = l.borrow_mut().as_mut() {
                 v.push(Access { width: 0, src, dst, bulk: total });
